@@ -639,7 +639,7 @@ pub fn canonical_answer(method: &str, r: Option<&Response>) -> String {
             let mut v = resp.result.clone().unwrap_or(Value::Null);
             if method == "codeAction/resolve" || method == "textDocument/completion" || method == "workspace/executeCommand" {
                 // fresh-note names are random 8-character draws in production mode
-                v = serde_json::from_str(&mask_random_names(&v.to_string())).unwrap_or(v);
+                mask_value(&mut v);
             }
             match method {
                 "textDocument/references" => {
@@ -656,6 +656,17 @@ pub fn canonical_answer(method: &str, r: Option<&Response>) -> String {
             }
             v.to_string()
         }
+    }
+}
+
+/// mask random fresh-note names in every string of a JSON value (on the parsed value: masking the serialised
+/// text would also hit escape sequences such as `\n42graph`)
+pub fn mask_value(v: &mut Value) {
+    match v {
+        Value::String(s) => *s = mask_random_names(s),
+        Value::Array(a) => a.iter_mut().for_each(mask_value),
+        Value::Object(o) => o.values_mut().for_each(mask_value),
+        _ => {}
     }
 }
 
